@@ -1,5 +1,6 @@
 import Peppi.Lemmas.GenFile
 import Peppi.Lemmas.Unified2
+import Peppi.Lemmas.Longer
 /-! Instances of the general file-level theorem (`readP_gen`) for **every** framing regime at once: the canonical frame events
     of a well-formed replay with declared unknown events spliced in anywhere after the Gecko block, and arbitrary extra bytes
     after Game End.  Consequences: C08 (unknown events) and C17 (fixed point of read/write on tolerated irregularities) for every
@@ -112,16 +113,17 @@ theorem canonEventsAny_run {T : TextOracle} {r : Replay} {s : Start} {gk : Optio
     exact ⟨stF, by simpa [canonEventsAny, h30, h22] using hrun, hctx, hfend, hgecko, hmeta, hdge, by
       simp only [hlt, ↓reduceIte]; exact close_eq_exp _ _ _ _ hinv⟩
 
-/-- tolerated irregularities of a file: unknown event codes declared in the payload table (`extra`), the event stream between
-    the Gecko block (or Game Start) and Game End (`mixed`), bytes after Game End up to the declared raw length (`junk`) -/
+/-- tolerated irregularities of a file: its payload table (`table`: the version's entries, possibly with larger sizes for the
+    frame events, plus entries for codes the library does not know), the event stream between the Gecko block (or Game Start)
+    and Game End (`mixed`), bytes after Game End up to the declared raw length (`junk`) -/
 structure Irr where
-  extra : List (Nat × Nat)
+  table : List (Nat × Nat)
   mixed : List (Nat × Bytes)
   junk : Bytes
 
 /-- the file of a history with irregularities, in the general shape -/
 def Replay.fileIrr (r : Replay) (s : Start) (gk : Option GeckoBlocks) (i : Irr) : GFile :=
-  { table := canonTableAny s.version r.startBlock.length (r.endLen s.version) gk ++ i.extra
+  { table := i.table
     startBlock := r.startBlock
     mid := (match gk with | some g => g.enc | none => []) ++ encEvents i.mixed
     fend := r.fend
@@ -129,17 +131,31 @@ def Replay.fileIrr (r : Replay) (s : Start) (gk : Option GeckoBlocks) (i : Irr) 
     metadata := r.metadata }
 
 /-- **well-formed up to tolerated irregularities** (any version): erasing the unknown events from the stream leaves the
-    recorder's canonical frame events; every unknown event is declared with its size; junk follows a single Game End and
-    does not look like a second one -/
+    recorder's canonical frame events, each possibly with extra trailing bytes (a newer version's longer payloads); every
+    event of the stream is declared in the payload table with its size; junk follows a single Game End and does not look
+    like a second one -/
 structure Irr.OK (T : TextOracle) (r : Replay) (s : Start) (gk : Option GeckoBlocks) (i : Irr) : Prop where
   base : r.WFAny T s gk
-  tableOK : TableOK (r.fileIrr s gk i).table
-  nodup : ((r.fileIrr s gk i).table.map Prod.fst).Nodup
-  tableLen : 3 * (r.fileIrr s gk i).table.length + 1 < 256
-  erase : i.mixed.filter (fun e => isKnown e.1) = canonEventsAny s.version (portOccupancy s) r.frames
-  declared : ∀ e ∈ i.mixed, isKnown e.1 = false → e.1 < 256 ∧ (e.1, e.2.length) ∈ i.extra
+  tableOK : TableOK i.table
+  nodup : (i.table.map Prod.fst).Nodup
+  tableLen : 3 * i.table.length + 1 < 256
+  declStart : (EV_GAME_START, r.startBlock.length) ∈ i.table
+  declEnd : (EV_GAME_END, r.endLen s.version) ∈ i.table
+  declSplit : ∀ g, gk = some g → (EV_SPLITTER, 516) ∈ i.table
+  erase : Longer (i.mixed.filter (fun e => isKnown e.1)) (canonEventsAny s.version (portOccupancy s) r.frames)
+  declared : ∀ e ∈ i.mixed, e.1 < 256 ∧ (e.1, e.2.length) ∈ i.table
   junkOK : i.junk ≠ [] → (∃ e, r.fend = some e) ∧ r.doubled = false ∧ ¬ looksLikeEnd s.version i.junk
   rawLen : (r.fileIrr s gk i).raw.length < 256 ^ 4
+
+theorem Longer.codes {es' es : List (Nat × Bytes)} (h : Longer es' es) : es'.map Prod.fst = es.map Prod.fst := by
+  induction h with
+  | nil => rfl
+  | ext c b x es' es _ _ ih => simp [ih]
+  | same e es' es _ ih => simp [ih]
+
+/-- unknown events only (no longer payloads): the table is the version's table plus the declared unknown codes -/
+def Irr.ofUnknown (v : Ver) (sl el : Nat) (gk : Option GeckoBlocks) (extra : List (Nat × Nat)) (mixed : List (Nat × Bytes)) (junk : Bytes) : Irr :=
+  { table := canonTableAny v sl el gk ++ extra, mixed := mixed, junk := junk }
 
 /-- the state after the Gecko block (or after `parse_start` when there is none) -/
 def psAfterGecko (t : List (Nat × Nat)) (sl : Nat) (s : Start) : Option GeckoBlocks → ParseState
@@ -175,11 +191,9 @@ theorem readP_irregular (T : TextOracle) (r : Replay) (s : Start) (gk : Option G
     ∃ ge : Option End, r.fend.map gameEnd = ge.map Res.ok ∧
       readP T {} (r.fileIrr s gk i).encode = .ok (r.gameAny s ge gk, []) := by
   have hb := h.base
-  let t := (r.fileIrr s gk i).table
-  have ht : t = canonTableAny s.version r.startBlock.length (r.endLen s.version) gk ++ i.extra := rfl
+  let t := i.table
   have hnd : (t.map Prod.fst).Nodup := h.nodup
-  have look : ∀ c sz, (c, sz) ∈ canonTableAny s.version r.startBlock.length (r.endLen s.version) gk → sizeOfEv t.reverse c = some sz :=
-    fun c sz hm => sizeOfEv_reverse t hnd c sz (by rw [ht]; exact List.mem_append_left _ hm)
+  have look : ∀ c sz, (c, sz) ∈ t → sizeOfEv t.reverse c = some sz := fun c sz hm => sizeOfEv_reverse t hnd c sz hm
   -- the state the middle starts from, after the Gecko block
   let ps1 := psAfterGecko t r.startBlock.length s gk
   have hps1 : ps1.st.start = s ∧ ps1.st.frames = FCols.new s.version (portOccupancy s) ∧ ps1.st.portIdx = portIdxOf (portOccupancy s) ∧
@@ -187,20 +201,23 @@ theorem readP_irregular (T : TextOracle) (r : Replay) (s : Start) (gk : Option G
     cases gk <;> exact ⟨rfl, rfl, rfl, rfl, rfl, rfl, rfl⟩
   obtain ⟨p1, p2, p3, p4, p5, p6, p7⟩ := hps1
   obtain ⟨stF, hrun, hctx, hfend, hgecko, hmeta, hdge, hfr⟩ := canonEventsAny_run hb ps1.st p1 p2 p3
-  have hrun' : runEvents ps1.st i.mixed = .ok stF := by rw [runEvents_erase_unknown, h.erase]; exact hrun
+  have hrun' : runEvents ps1.st i.mixed = .ok stF := by rw [runEvents_erase_unknown]; exact runEvents_longer h.erase _ _ hrun
   have hdecl : ∀ e ∈ i.mixed, e.1 < 256 ∧ e.1 ≠ EV_SPLITTER ∧ e.1 ≠ EV_GAME_END ∧ sizeOfEv ps1.st.sizes e.1 = some e.2.length := by
     intro e he
     rw [p4]
+    obtain ⟨hc, hd⟩ := h.declared e he
     cases hk : isKnown e.1 with
     | true =>
-      have hmem : e ∈ canonEventsAny s.version (portOccupancy s) r.frames := by rw [← h.erase]; exact List.mem_filter.mpr ⟨he, hk⟩
-      obtain ⟨a1, a2, a3, a4⟩ := canonEventsAny_sizes hb r.startBlock.length (r.endLen s.version) e hmem
-      exact ⟨a1, a2, a3, look _ _ a4⟩
+      have hmem : e.1 ∈ (i.mixed.filter (fun e => isKnown e.1)).map Prod.fst := List.mem_map.mpr ⟨e, List.mem_filter.mpr ⟨he, hk⟩, rfl⟩
+      rw [h.erase.codes] at hmem
+      obtain ⟨e0, he0, hee⟩ := List.mem_map.mp hmem
+      obtain ⟨a1, a2, a3, _⟩ := canonEventsAny_sizes hb r.startBlock.length (r.endLen s.version) e0 he0
+      rw [hee] at a2 a3
+      exact ⟨hc, a2, a3, look _ _ hd⟩
     | false =>
-      obtain ⟨hc, hd⟩ := h.declared e he hk
       have hns : e.1 ≠ EV_SPLITTER := by intro hh; rw [hh] at hk; simp [isKnown] at hk
       have hne : e.1 ≠ EV_GAME_END := by intro hh; rw [hh] at hk; simp [isKnown] at hk
-      exact ⟨hc, hns, hne, sizeOfEv_reverse t hnd _ _ (by rw [ht]; exact List.mem_append_right _ hd)⟩
+      exact ⟨hc, hns, hne, look _ _ hd⟩
   have hev := MidRun.events ps1 i.mixed stF hdecl hrun'
   let psF : ParseState := { st := stF, bytesRead := ps1.bytesRead + (encEvents i.mixed).length }
   -- the whole middle
@@ -214,7 +231,7 @@ theorem readP_irregular (T : TextOracle) (r : Replay) (s : Start) (gk : Option G
       rw [this, ← e1]; exact hev
     | some g =>
       obtain ⟨h33, hfull, hlast, hnz, hlt⟩ := hb.gecko g rfl
-      have hszS : sizeOfEv t.reverse EV_SPLITTER = some 516 := look _ _ (by simp [canonTableAny, canonTableG])
+      have hszS : sizeOfEv t.reverse EV_SPLITTER = some 516 := look _ _ (h.declSplit g rfl)
       have hg := midRun_gecko t r.startBlock.length s g hfull hlast hlt hszS
       have e1 : ps1 = psAfterGecko t r.startBlock.length s (some g) := rfl
       have hbr1 : ps1.bytesRead = (ps0T t r.startBlock.length s).bytesRead + g.enc.length := by
@@ -229,8 +246,8 @@ theorem readP_irregular (T : TextOracle) (r : Replay) (s : Start) (gk : Option G
   have hwf : (r.fileIrr s gk i).WF T s psF := by
     refine ⟨hb.start, h.tableOK, h.nodup, h.tableLen, ?_, ?_, hmid, ?_, hsizesF, hstartF, by rw [hfend, p5], by rw [hmeta, p6], by rw [hdge, p7],
       ?_, ?_, hb.metadata, h.rawLen⟩
-    · exact List.mem_append_left _ (canonTableAny_start _ _ _ _)
-    · refine ⟨r.endLen s.version, List.mem_append_left _ (canonTableAny_end _ _ _ _), ?_⟩
+    · exact h.declStart
+    · refine ⟨r.endLen s.version, h.declEnd, ?_⟩
       intro e he
       have : r.fend = some e := he
       simp [Replay.endLen, this]
